@@ -134,9 +134,6 @@ def _file(fmt, nf, na, cell, seed, idx=0, rows=None, stored=False):
     key = (fmt, nf, na, cell, seed, idx, rows)
     if key in _CACHE:
         return _CACHE[key][1:]
-    if len(_CACHE) >= 12:
-        k0 = next(iter(_CACHE))
-        shutil.rmtree(_CACHE.pop(k0)[0], ignore_errors=True)
     base = "/dev/shm" if os.access("/dev/shm", os.W_OK) else os.path.join(files.VERIF, ".scratch")
     os.makedirs(base, exist_ok=True)
     import tempfile
@@ -260,8 +257,16 @@ def run_case(case):
     return _run_case(case)
 
 
+def _trim_cache():
+    """called between cases only: a case (file lists!) may use several cached files at once"""
+    while len(_CACHE) > 24:
+        k0 = next(iter(_CACHE))
+        shutil.rmtree(_CACHE.pop(k0)[0], ignore_errors=True)
+
+
 def _run_case(case):
     import mdtraj as md
+    _trim_cache()
     viol, labels = [], ["fmt:" + case["fmt"], "op:" + case["op"]] + list(case.get("excluded", []))
     fmt, nf, na = case["fmt"], case["nf"], case["na"]
     fn, tr, full = _file(fmt, nf, na, case["cell"], case["seed"], rows=case.get("rows"), stored=case.get("stored", False))
